@@ -1,7 +1,7 @@
 """C08 — Study tiling is a lossless, centred partition of the image into 256-pixel tiles."""
 PROPERTY = "C08"
 LEVEL = "proof"
-CONTRACT_MODULES = ["contracts.specfuns", "contracts.pyramid", "contracts.image", "contracts.merge", "contracts.study"]
+CONTRACT_MODULES = ["contracts.specfuns", "contracts.lemmas_desc", "contracts.pyramid", "contracts.parallel", "contracts.walk", "contracts.reducer", "contracts.lemmas_embed", "contracts.generator", "contracts.image", "contracts.merge", "contracts.pyramidio", "contracts.study", "contracts.multitan", "contracts.multiwcs", "contracts.toastsample", "contracts.toastgeom", "contracts.toastgen"]
 FUNCTIONS = [
     "toasty.pyramid.next_highest_power_of_2",
     "toasty.study.StudyTiling.__init__",
@@ -10,6 +10,7 @@ FUNCTIONS = [
     "toasty.study.StudyTiling.compute_for_subimage",
     "toasty.study.StudyTiling.image_to_tile",
     "toasty.study.StudyTiling.tile_image",
+    "toasty.image.Image.fill_into_maskable_buffer",
 ]
 LEMMAS = []
 SLOW = ()
